@@ -69,6 +69,7 @@ fn main() {
     let code = match args.get(1).map(|s| s.as_str()) {
         Some("run") => simcore::cli::cmd_run("srvsim", &args[2..], &lookup),
         Some("replay") => simcore::cli::cmd_replay(&args[2..], &lookup),
+        Some("dump") => simcore::cli::cmd_dump("srvsim", &args[2..], &lookup),
         _ => {
             eprintln!("usage: srvsim run|replay ...");
             2
